@@ -26,7 +26,7 @@ SHAPES = ['dense', 'dense', 'zero_caps', 'zero_caps', 'tight_lecturer', 'one_lec
 
 def plan(tier):
     return {'cases_per_shard': 2000 if tier == 'quick' else 40000,
-            'time_cap_s': 45 if tier == 'quick' else 560}
+            'time_cap_s': 90 if tier == 'quick' else 560}
 
 
 def run_case(cs, ctx):
